@@ -26,7 +26,7 @@ TABLE = {
         "theorems": ["AcqVerif.C06.monitor_consumes_the_stream_in_order", "AcqVerif.C06.mapped_region_is_the_next_bytes",
                      "AcqVerif.C06.flushed_monitor_has_nothing_unread", "AcqVerif.C06.fresh_monitor_sees_only_the_current_run",
                      "AcqVerif.C06.frames_of_the_current_run", "AcqVerif.C06.stop_flushes_a_registered_monitor", "AcqVerif.Runtime.DMon.micro"],
-        "classes": ["mon", "slowmon", "holdmon", "abortmon", "latemon", "avgmon", "avg1"],
+        "classes": ["mon", "slowmon", "holdmon", "abortmon", "latemon", "avgmon", "avg1", "camfaultmon"],
         "kinds": ("monitor-", "map-read-failed", "stored-", "camera-delivered", "never-returns", "CRASH"),
         "what": "a client that maps/unmaps (partially, slowly, holding regions across stop/abort, over several acquisitions) sees consecutive frame "
                 "ids with the right pixels, nothing of a finished acquisition later, map/unmap keep succeeding, and storage is unaffected",
@@ -116,6 +116,20 @@ def run(ctx):
         for _ in range(per_class):
             sc = rtx.gen(ctx.rng, cls)
             rtx.enumerate_schedules(ctx, ex, sc, bound, budget, rel)
+    if ctx.prop == "C09":
+        # the shipped storage devices themselves: a write that fails ends the acquisition, and the next fault-free acquisition with the
+        # same device on the same path starts and is complete — every fault index x fault kind of the life cycle "retry-same-path",
+        # real raw / tiff / tiff-json devices through the real HAL and platform layer (harness and model of C14 / C16)
+        from . import storage_io as S
+        keep = dict(ctx.cov)
+        sexe, sdrv = S.build(ctx)
+        if sexe:
+            cases = S.exhaustive_fault_cases(sdrv, kinds=("raw", "tiff", "sxs"), only=("retry-same-path", "two-acq", "restart"))
+            st = S.new_stats()
+            problems = S.run_batch(sexe, sdrv, cases, st)
+            S.report(ctx, sexe, sdrv, cases, problems, {"unowned-pwrite", "unowned-close", "unowned-flock", "descriptor-leak", "unreported-write-failure"}, crash_is_mine=True)
+            keep["storage_devices_after_a_failed_write"] = {"cases": len(cases), "agree_with_storage_model": st.get("validated")}
+        ctx.cov.clear(); ctx.cov.update(keep)
     ex.evidence()
     ctx.cov["rule"] += ". Property decided on the implementation by the oracles: " + t["what"]
     ctx.cov["exhaustive"] = False
@@ -125,4 +139,13 @@ def run(ctx):
 
 
 def replay(ctx, path):
+    import json
+    rp = json.load(open(path)).get("replay", {})
+    if isinstance(rp, dict) and rp.get("harness") == "h_storage_io":
+        from . import storage_io as S
+        return S.replay_file(ctx, path, {"unowned-pwrite", "unowned-close", "unowned-flock", "descriptor-leak", "unreported-write-failure"}, True)
+    if isinstance(rp, dict) and rp.get("harness") == "h_platform":
+        from . import platconf
+        platconf.run(ctx)
+        return 1 if ctx.violations else 0
     return rtx.replay(ctx, path)
